@@ -309,7 +309,39 @@ def _as_load(t):
 def st_Return(ip, s, st):
     if s.value is None:
         return [("return", st, NONE)]
+    if isinstance(s.value, ast.GeneratorExp) and ip.c is not None and ip.c.generator and st.depth == 0:
+        return genexp_as_generator(ip, s, st)
     return [("return", s2, v) for s2, v in ip.ev(s.value, st)]
+
+
+def genexp_as_generator(ip, s, st):
+    """`def f(.., xs): return (elt for x in xs if cond)` under a generator=True contract: the generator object python
+    returns behaves exactly like the one of `for x in xs: if cond: yield elt` PROVIDED nothing else runs at call time:
+    the return must be the only statement of the function (after the docstring) and the iterable a plain parameter name
+    (evaluating it and taking iter() of it -- eagerly, at the call -- has no effect on an iterator or a list).  The loop
+    gets the ordinal after the function's own loops."""
+    g = s.value
+    body = [b for b in ip.cur_fn.body if not (isinstance(b, ast.Expr) and isinstance(b.value, ast.Constant))]
+    params = [a.arg for a in ip.cur_fn.args.args]
+    if len(body) != 1 or body[0] is not s or len(g.generators) != 1 or g.generators[0].is_async \
+            or not (isinstance(g.generators[0].iter, ast.Name) and g.generators[0].iter.id in params):
+        raise U("returned generator expression: only `return (e for x in <parameter> if c)` as the whole body")
+    cache = ip.__dict__.setdefault("_genexp_loops", {})
+    loop = cache.get(id(s))
+    if loop is None:
+        gen = g.generators[0]
+        inner = [ast.Expr(value=ast.Yield(value=g.elt))]
+        for c in reversed(gen.ifs):
+            inner = [ast.If(test=c, body=inner, orelse=[])]
+        loop = ast.For(target=gen.target, iter=gen.iter, body=inner, orelse=[])
+        ast.copy_location(loop, s)
+        ast.fix_missing_locations(loop)
+        cache[id(s)] = loop
+        ip.loop_ids[id(loop)] = len(ip.loop_ids)
+    outs = []
+    for kind, s2, payload in exec_stmt(ip, loop, st):
+        outs.append(("return", s2, NONE) if kind == "next" else (kind, s2, payload))
+    return outs
 
 
 def st_Break(ip, s, st):
@@ -995,6 +1027,12 @@ def measure(ip, spec, st):
 
 def end_of_body(ip, k, spec, st, m0):
     check_invariants(ip, k, spec, st, "preserve")
+    if getattr(spec, "body_end", None):
+        # LoopSpec.body_end: per-iteration postconditions (obligations only)
+        from .calls import eval_spec
+        env = ip.spec_env(st)
+        for j, cl in enumerate(spec.body_end):
+            ip.emit("iter-end", "loop#%s.iteration-end#%d" % (k, j), st, eval_spec(ip, st, env, cl, old=ip.entry), {"clause": cl})
     if m0 is not None:
         m1 = measure(ip, spec, st)
         ip.emit("decreases", "loop#%d.decreases" % k, st, AND(CMP("<", m1, m0), CMP(">=", m0, I(0) if m0.sort == "Int" else R(0))))
